@@ -38,6 +38,7 @@ class AStub:
         self.vals = [['none']] * len(names)
         self.DescriptorVersion = 0
         self.StateVersion = 0
+        self.is_multi_state = False       # read by StatesLookup.add_object_no_lock
 
     def key(self, i):
         return Stub.key(self, i)
@@ -95,6 +96,15 @@ def observe(t, kinds, keys, stubs):
     return [objs, len(t.objects), idx, refs]
 
 
+def versions(t, stubs):
+    """side table of the MDIB lookups (handle -> last version) and the version attributes of the stubs"""
+    hvl = t.__dict__.get('handle_version_lookup')
+    if hvl is None:
+        return None
+    items = sorted([[-1 if k is None else k, v] for k, v in hvl.items()])
+    return {'hvl': items, 'ver': [[s.DescriptorVersion, s.StateVersion] for s in stubs]}
+
+
 def run_case(case):
     kinds, nobj, ops, keys = case['kinds'], case['nobj'], case['ops'], case['keys']
     keys = [None if k == -1 else k for k in keys]
@@ -104,30 +114,36 @@ def run_case(case):
     else:
         t = mk_table(kinds)
         stubs = [Stub(i, len(kinds)) for i in range(nobj)]
-    use_no_lock = case.get('no_lock', False)
+
+    def obj(o):
+        return None if o == -1 else stubs[o]
+
     trace = []
     for op in ops:
         code = 0
         try:
-            if op[0] == 'add':
-                (t.add_object_no_lock if use_no_lock else t.add_object)(stubs[op[1]])
-            elif op[0] == 'remove':
-                (t.remove_object_no_lock if use_no_lock else t.remove_object)(stubs[op[1]])
-            elif op[0] == 'update':
-                (t.update_object_no_lock if use_no_lock else t.update_object)(stubs[op[1]])
+            if op[0] in ('add', 'remove', 'update', 'setver'):
+                getattr(t, op[2])(obj(op[1]))        # the entry point is named by the op
+            elif op[0] in ('addm', 'removem', 'updatem'):
+                getattr(t, op[2])([obj(o) for o in op[1]])
             elif op[0] == 'clear':
                 t.clear()
+            elif op[0] == 'bump':
+                stubs[op[1]].DescriptorVersion += op[2]
+                stubs[op[1]].StateVersion += op[2]
             elif op[0] == 'set':
                 vals = list(stubs[op[1]].vals)
                 vals[op[2]] = op[3]
                 stubs[op[1]].vals = vals
+            else:
+                raise SystemExit(f'unknown op {op[0]}')
         except KeyError:
             code = 1
         except ValueError as ex:
             code = 2 if 'not known' in str(ex) else 1
         except Exception as ex:  # noqa: BLE001
             code = 9
-        trace.append([code, observe(t, kinds, keys, stubs)])
+        trace.append([code, observe(t, kinds, keys, stubs), versions(t, stubs)])
     return trace
 
 
